@@ -241,9 +241,10 @@ def reward_value(case, space, cfg, d):
     return d.metadata['reward']          # computed by Deduping(auto_reward_fn), what pg.sample feeds back
   i = space.idx(d)
   r = reward_base(case, space, d)
-  if multi_objective(cfg):
-    return (float(r), float((space.m - 1 - i + r) % 5))
-  return float(r)
+  wrapped = case.get('reward_form') == 'wrapped'     # the other form feedback() accepts: a float for a multi-objective
+  if multi_objective(cfg):                            # algorithm, a 1-tuple for a single-objective one
+    return float(r) if wrapped else (float(r), float((space.m - 1 - i + r) % 5))
+  return (float(r),) if wrapped else float(r)
 
 def reward_base(case, space, d):
   """The reward as a function of the DNA: a table over the enumeration, or (float spaces) over a digest of the values."""
@@ -255,7 +256,7 @@ def pack_reward(r):
   if r is None:
     return None
   if isinstance(r, (tuple, list)):
-    a, b = r
+    a, b = r if len(r) == 2 else (r[0], 63)
     assert a == int(a) and b == int(b) and 0 <= b < 64
     return int(a) * 64 + int(b)
   assert r == int(r), r
@@ -628,7 +629,10 @@ def gen_case(rng, kind, n=None, lag=None):
   rewards = [rng.randrange(0, 6) for _ in range(nr)]
   if kind == 'neat':
     rewards = list(range(nr)); rng.shuffle(rewards)
-  return dict(space=sp, alg=cfg, rewards=rewards, sched=sched)
+  case = dict(space=sp, alg=cfg, rewards=rewards, sched=sched)
+  if needs_feedback(cfg) and rng.random() < 0.15:
+    case['reward_form'] = 'wrapped'
+  return case
 
 # ------------------------------------------------------------------------------------------------
 # model cases
@@ -676,7 +680,8 @@ def model_case(case, res):
   need = random_need(res['live'])
   base = list(case['rewards']) if space.finite else [reward_base(case, space, d) for d in space.dnas]
   if multi_objective(cfg):
-    rewards = [pack_reward((float(r), float((space.m - 1 - i + r) % 5))) for i, r in enumerate(base)]
+    wrapped = case.get('reward_form') == 'wrapped'
+    rewards = [pack_reward((float(r),) if wrapped else (float(r), float((space.m - 1 - i + r) % 5))) for i, r in enumerate(base)]
   else:
     rewards = base
   return [enc_alg(cfg, space, res, need, res['live']), space.m, rewards, [EV[e] for e in case['sched']]]
@@ -802,6 +807,7 @@ def run(ctx):
               if (tag == 'random' and nt and len(ctx.samples) < 6 and ctx.rng.random() < 0.1) or len(ctx.samples) < 1 else None)
     ctx.hist('schedule_kind', tag)
     ctx.hist('space', case['space'])
+    ctx.hist('reward_form', case.get('reward_form', 'native'))
     ctx.hist('crash_points_per_case', min(info['crash_points'] // 10 * 10, 60))
     ctx.hist('max_in_flight', info['max_inflight'])
     ctx.hist('run_ended_by', 'schedule' if info['terminal'] is None or info['terminal'][0] >= len(case['sched']) else 'propose-raised-%s' % {0: 'StopIteration', 1: 'ValueError', 6: 'ZeroDivisionError'}.get(info['terminal'][1], info['terminal'][1]))
